@@ -58,7 +58,8 @@ def gen_case(rng: random.Random, tier: str) -> dict:
         "proc_yield_seed": rng.randrange(1 << 30),
         "top_map": rng.choice(ext) if (ext and not g["seeds"] and rng.random() < 0.25) else None,
         "top_map_n": rng.randint(0, 3),
-        "reject": rng.random() < 0.06,
+        "reject": rng.random() < 0.08,
+        "reject_kind": rng.choice(["missing", "missing", "on_missing", "select"]),
         "select_seed": rng.randrange(1 << 30) if rng.random() < 0.3 else None,  # explicit select + on_missing="error"
         "cache_fault": rng.choice([None, None, ["set", rng.randrange(4)], ["get", rng.randrange(4)]]) if cache else None,  # the backend itself raises
     }
@@ -143,14 +144,23 @@ def run_case(doc: dict) -> dict:
             v[_mp] = [v.get(_mp, 5) + j if isinstance(v.get(_mp, 5), int) else j for j in range(doc["top_map_n"])]
             return v
 
-    if doc.get("reject") and op == "run":
-        # a call rejected by validation must emit nothing
-        def values(graph, _b=values):  # noqa: F811
-            v = _b(graph)
-            req = list(graph.inputs.required)
-            if req:
-                v.pop(req[0], None)
-            return v
+    rejecting = bool(doc.get("reject")) and (op == "run" or doc["top_map_n"] > 0)
+    if rejecting:
+        # a call rejected by validation must emit nothing - run() and map() alike (a required input missing, an unknown on_missing
+        # policy, a select naming no output)
+        rk = doc.get("reject_kind", "missing")
+        if rk == "on_missing":
+            kw["on_missing"] = "bogus"
+        elif rk == "select":
+            kw["select"] = ["no_such_output_name"]
+        else:
+
+            def values(graph, _b=values, _mp=doc.get("top_map")):  # noqa: F811
+                v = _b(graph)
+                req = [r for r in graph.inputs.required if r != _mp]
+                if req:
+                    v.pop(req[0], None)
+                return v
 
     faults = doc.get("faults") or []
     viol: list = []
@@ -186,13 +196,15 @@ def run_case(doc: dict) -> dict:
             fault_counts(w["rt"], res["stats"])
             out = w["out"]
             tag = f"{label}"
-            rejected = op == "run" and out["status"] == "raised" and out["error"] and out["error"][0] in ("MissingInputError", "ValueError", "IncompatibleRunnerError", "GraphConfigError")
+            rejected = (op == "run" or rejecting) and out["status"] == "raised" and out["error"] and out["error"][0] in ("MissingInputError", "ValueError", "IncompatibleRunnerError", "GraphConfigError")
             if rejected and "Requested outputs not found" in str(out["error"][1]):
                 rejected = False  # on_missing="error" fires AFTER the run: an ordinary failed run, not a rejected call
             decs = gate_decisions(g, warm_rts + [w["rt"]])
             for p in box["procs"]:
                 if rejected:
                     res["stats"]["rejected_calls"] = res["stats"].get("rejected_calls", 0) + 1
+                    if op == "map":
+                        res["stats"]["rejected_map_calls"] = res["stats"].get("rejected_map_calls", 0) + 1
                     if p.events or p.shutdowns:
                         viol.append((f"{tag}:rejected_call_emitted_events", {"proc": p.name, "events": len(p.events), "shutdowns": p.shutdowns, "error": out["error"]}))
                     continue
